@@ -110,6 +110,7 @@ type concGate struct {
 	armed  map[string]bool
 	parked map[string]chan struct{}
 	keys   map[string]string // revision key -> tag that announced it
+	faults map[string]bool   // tag -> the next persisting call of this RPC fails (WP-Q7)
 }
 
 func newConcGate() *concGate {
@@ -154,6 +155,7 @@ func (g *concGate) begin(cid types.FileContractID) {
 	g.events = nil
 	g.armed = map[string]bool{}
 	g.keys = map[string]string{}
+	g.faults = map[string]bool{}
 }
 
 func (g *concGate) end() {
@@ -180,6 +182,34 @@ func (g *concGate) arm(tag, point string) {
 	defer g.mu.Unlock()
 	g.armed[tag+"/"+point] = true
 }
+
+// armFault makes the next persisting call of tag's RPC fail with an injected error (WP-Q7): the
+// wrapper returns the error without calling the store, as a full disk or an I/O error would
+func (g *concGate) armFault(tag string) {
+	g.mu.Lock()
+	defer g.mu.Unlock()
+	g.faults[tag] = true
+}
+
+// takeFault reports (and consumes) the armed fault of the RPC that is persisting rev; tag "" = look
+// the tag up by the revision (store level)
+func (g *concGate) takeFault(tag string, cid types.FileContractID, rev *types.FileContractRevision) bool {
+	g.mu.Lock()
+	defer g.mu.Unlock()
+	if !g.active || cid != g.cid {
+		return false
+	}
+	if tag == "" && rev != nil {
+		tag = g.keys[concRevKey(*rev)]
+	}
+	if tag == "" || !g.faults[tag] {
+		return false
+	}
+	delete(g.faults, tag)
+	return true
+}
+
+var errConcInjected = errors.New("injected fault: disk I/O error")
 
 func (g *concGate) disarm(tag, point string) {
 	g.mu.Lock()
@@ -347,6 +377,10 @@ func (c *concContracts) Unlock(id types.FileContractID) {
 func (c *concContracts) RenewContract(renewal contracts.SignedRevision, existing contracts.SignedRevision, formationSet []types.Transaction, lockedCollateral types.Currency, clearingUsage, renewalUsage contracts.Usage) error {
 	id := existing.Revision.ParentID
 	c.g.hit(c.tag, cpPersistIn, "renew", id, &existing.Revision)
+	if c.g.takeFault(c.tag, id, &existing.Revision) {
+		c.g.hit(c.tag, "persist-fault", "renew", id, &existing.Revision)
+		return errConcInjected
+	}
 	err := c.Manager.RenewContract(renewal, existing, formationSet, lockedCollateral, clearingUsage, renewalUsage)
 	if err != nil {
 		c.g.hit(c.tag, "persist-fail", "renew", id, &existing.Revision)
@@ -365,6 +399,10 @@ type concAccounts struct {
 func (a *concAccounts) Credit(req accounts.FundAccountWithContract, refund bool) (types.Currency, error) {
 	id := req.Revision.Revision.ParentID
 	a.g.hit(a.tag, cpPersistIn, "credit", id, &req.Revision.Revision)
+	if a.g.takeFault(a.tag, id, &req.Revision.Revision) {
+		a.g.hit(a.tag, "persist-fault", "credit", id, &req.Revision.Revision)
+		return types.ZeroCurrency, errConcInjected
+	}
 	bal, err := a.AccountManager.Credit(req, refund)
 	if err != nil {
 		a.g.hit(a.tag, "persist-fail", "credit", id, &req.Revision.Revision)
@@ -384,6 +422,10 @@ type concStore struct {
 func (s *concStore) ReviseContract(revision contracts.SignedRevision, oldRoots []types.Hash256, usage contracts.Usage, sectorChanges []contracts.SectorChange) error {
 	id := revision.Revision.ParentID
 	s.g.hit("", cpPersistIn, "revise", id, &revision.Revision)
+	if s.g.takeFault("", id, &revision.Revision) {
+		s.g.hit("", "persist-fault", "revise", id, &revision.Revision)
+		return errConcInjected
+	}
 	err := s.Store.ReviseContract(revision, oldRoots, usage, sectorChanges)
 	if err != nil {
 		s.g.hit("", "persist-fail", "revise", id, &revision.Revision)
@@ -571,10 +613,22 @@ type concReq struct {
 	nextID int          // model id a renewed contract would get
 
 	// outcome
-	err     error
+	err error
+	// the host signature the renter received and the revision it is for (WP-Q7)
+	gotSig types.Signature
+	sigRev types.FileContractRevision
+	hasSig bool
+	// renew3: the wallet the renter's session signs with (nil = the node's)
+	wallet3 proto3.Wallet
 	newID   types.FileContractID
 	renewed bool
 	skipped string // the RPC could not be built (e.g. no funds): nothing was sent
+}
+
+// received: the renter side got a host signature for rev
+func (q *concReq) received(g *concGate, rev types.FileContractRevision, sig types.Signature) {
+	q.gotSig, q.sigRev, q.hasSig = sig, concCopyRev(rev), true
+	g.note(q.tag, "host-sig")
 }
 
 func (q *concReq) key() string {
@@ -840,7 +894,7 @@ func (c *concCase) rpc2(q *concReq, tr *crhp2.Transport, locked crhp2.ContractRe
 		if err := tr.ReadResponse(&resp, 1<<20); err != nil {
 			return err
 		}
-		g.note(q.tag, "host-sig")
+		q.received(g, cand(), resp.Signature)
 		return nil
 	case ckRead2:
 		req := &crhp2.RPCReadRequest{Sections: q.sections, MerkleProof: false, RevisionNumber: q.prop.rn, ValidProofValues: q.prop.valid(), MissedProofValues: q.prop.missed(),
@@ -859,7 +913,8 @@ func (c *concCase) rpc2(q *concReq, tr *crhp2.Transport, locked crhp2.ContractRe
 				if err := tr.ReadResponse(&resp, 1<<20); err != nil {
 					return err
 				} else if resp.Signature != (types.Signature{}) {
-					break
+					q.received(g, cand(), resp.Signature)
+					return nil
 				}
 			}
 			g.note(q.tag, "host-sig")
@@ -872,7 +927,11 @@ func (c *concCase) rpc2(q *concReq, tr *crhp2.Transport, locked crhp2.ContractRe
 				rerr = err
 				break
 			}
-			g.note(q.tag, "host-sig")
+			if resp.Signature != (types.Signature{}) {
+				q.received(g, cand(), resp.Signature)
+			} else {
+				g.note(q.tag, "host-sig")
+			}
 		}
 		tr.WriteResponse(&crhp2.RPCReadStop)
 		return rerr
@@ -895,7 +954,7 @@ func (c *concCase) rpc2(q *concReq, tr *crhp2.Transport, locked crhp2.ContractRe
 		if err := tr.ReadResponse(&hostSig, 4096); err != nil {
 			return err
 		}
-		g.note(q.tag, "host-sig")
+		q.received(g, nr, hostSig.Signature)
 		return nil
 	case ckRenew2:
 		return c.runRenew2(q, tr, locked)
@@ -959,7 +1018,7 @@ func (c *concCase) payByContract(s *crhp3.Stream, q *concReq) error {
 	if err := s.ReadResponse(&resp, 4096); err != nil {
 		return err
 	}
-	c.ch.g.note(q.tag, "host-sig")
+	q.received(c.ch.g, nr, resp.Signature)
 	return nil
 }
 
@@ -1094,7 +1153,7 @@ func (c *concCase) run3(q *concReq) error {
 		if err := s.ReadResponse(&fresp, 4096); err != nil {
 			return err
 		}
-		c.ch.g.note(q.tag, "host-sig")
+		q.received(c.ch.g, nr, fresp.Signature)
 		return nil
 	}
 	return errors.New("unknown rhp3 kind")
@@ -1131,7 +1190,13 @@ func (c *concCase) runRenew3(q *concReq) error {
 	vr, vh := cur.ValidRenterPayout(), cur.ValidHostPayout()
 	q.prop = c10Prop{rn: math.MaxUint64, vr: vr, vh: vh, mr: vr, mh: vh}
 	c.ch.g.announce(q.tag, concKey(math.MaxUint64, []types.Currency{vr, vh}, []types.Currency{vr, vh}))
-	sess, err := proto3.NewSession(context.Background(), h.hostKey.PublicKey(), c.ch.addr3[q.tag], h.node.Chain, h.node.Wallet)
+	// the renter's wallet: WP-Q7 observes (and may walk away at) the moment the repository's client
+	// has verified the host's signature for the clearing revision
+	var w proto3.Wallet = h.node.Wallet
+	if q.wallet3 != nil {
+		w = q.wallet3
+	}
+	sess, err := proto3.NewSession(context.Background(), h.hostKey.PublicKey(), c.ch.addr3[q.tag], h.node.Chain, w)
 	if err != nil {
 		return err
 	}
